@@ -340,3 +340,64 @@ Proof.
   cbv zeta. exists (mkCli 1 false (mkIo 4 32 1 1 0 1 0 0)). vm_compute.
   repeat split; try reflexivity; try (intro; discriminate). right. reflexivity.
 Qed.
+
+(* ---- NO hypothesis about block compressors left, for independent blocks without dictionary: the LZ4F model's block
+   compressor is the MODEL of what lz4frame.c calls there (Proofs/BlkInst.v: LZ4_compress_fast_extState_fastReset below
+   level 2, LZ4_compress_HC_extStateHC_fastReset from level 2 on - LZ4MID, hash chain, optimal parser), its context before
+   each call being any state satisfying the models' context invariants (states_ok) ---- *)
+From LZ4V Require Import Model.FastApi Model.HcMidApi Model.HcChainApi Model.HcOptApi.
+From LZ4V Require Import Proofs.BlkInst Proofs.BlkFrameInst Proofs.BlkCliInst.
+
+Theorem C04_st_roundtrip_indep_unconditional : forall sf sm sh, states_ok sf sm sh ->
+  forall (skipcrc : bool) (p : lz4f_prefs) (blockSize : Z) (content : list Z),
+  fp_blockMode p = 1 ->
+  1 <= blockSize -> valid_prefs p content -> fp_autoFlush p <> 0 -> lenZ content < U64_MAX1 ->
+  let blk := blk_indep (fp_level p) sf sm sh in
+  let F := st_output c4_header (c4_frame blk) (c4_update blk) (c4_end blk) p blockSize [] content in
+  stream_decode strict_valid skipcrc (S (length F)) [] [] F = Some content.
+Proof. exact st_roundtrip_indep_unconditional. Qed.
+Print Assumptions C04_st_roundtrip_indep_unconditional.
+
+Theorem C04_mt_roundtrip_indep_unconditional : forall sf sm sh, states_ok sf sm sh ->
+  forall (skipcrc : bool) (p : lz4f_prefs) (content : list Z),
+  fp_blockMode p = 1 ->
+  valid_prefs p content -> fp_autoFlush p <> 0 -> lenZ content < U64_MAX1 ->
+  let blk := blk_indep (fp_level p) sf sm sh in
+  let F := mt_output c4_header (c4_frame blk) (c4_update blk) p [] content in
+  stream_decode strict_valid skipcrc (S (length F)) [] [] F = Some content.
+Proof. exact mt_roundtrip_indep_unconditional. Qed.
+Print Assumptions C04_mt_roundtrip_indep_unconditional.
+
+(* Non-vacuity: the ST pipeline on 120 compressible bytes with 32-byte reads, independent blocks, at levels 1, 2, 9 and 12,
+   through the instantiated model (fresh contexts): shorter than the content, decoded by the frame specification *)
+Example C04_indep_unconditional_run :
+  let content := (repeat 97 60 ++ concat (repeat [5; 6; 7; 8; 9; 10] 10))%Z in
+  let run := fun l =>
+    let p := mkFp 1 4 0 1 0 l 1 0 in
+    let blk := blk_indep l (fun _ => ctx_init) (fun _ => hc_init) (fun _ => cc_init) in
+    let F := st_output c4_header (c4_frame blk) (c4_update blk) (c4_end blk) p 32 [] content in
+    (Nat.ltb (length F) 120, match stream_decode strict_valid false (S (length F)) [] [] F with Some Y => Z.of_nat (length Y) | None => -1 end) in
+  (run 1, run 2, run 9, run 12) = ((true, 120), (true, 120), (true, 120), (true, 120)).
+Proof. vm_compute. reflexivity. Qed.
+
+(* linked blocks / -D dictionary through the STREAMING models (Proofs/BlkInstFastLinked.v, BlkInstHcLinked.v; see Properties_C03.v) *)
+From LZ4V Require Import Model.FastStream Model.HcTabStream Model.HcOptStream Proofs.BlkInstFastLinked Proofs.BlkInstHcLinked.
+Theorem C04_st_roundtrip_fast_stream_unconditional : forall st, (forall n, lorc_ok (st n)) ->
+  forall (skipcrc : bool) (p : lz4f_prefs) (blockSize : Z) (dict content : list Z),
+  fp_level p < LZ4HC_CLEVEL_MIN ->
+  1 <= blockSize -> valid_prefs p content -> fp_autoFlush p <> 0 -> lenZ content < U64_MAX1 ->
+  let blk := blk_fast_linked st (fp_level p) in
+  let F := st_output c4_header (c4_frame blk) (c4_update blk) (c4_end blk) p blockSize dict content in
+  stream_decode strict_valid skipcrc (S (length F)) dict [] F = Some content.
+Proof. exact st_roundtrip_fast_stream_unconditional. Qed.
+Print Assumptions C04_st_roundtrip_fast_stream_unconditional.
+
+Theorem C04_st_roundtrip_hc_stream_unconditional : forall st, (forall n, horc_ok (st n)) ->
+  forall (skipcrc : bool) (p : lz4f_prefs) (blockSize : Z) (content : list Z),
+  3 <= fp_level p -> fp_blockMode p = 0 ->
+  1 <= blockSize -> valid_prefs p content -> fp_autoFlush p <> 0 -> lenZ content < U64_MAX1 ->
+  let blk := blk_hc_linked st in
+  let F := st_output c4_header (c4_frame blk) (c4_update blk) (c4_end blk) p blockSize [] content in
+  stream_decode strict_valid skipcrc (S (length F)) [] [] F = Some content.
+Proof. exact st_roundtrip_hc_stream_unconditional. Qed.
+Print Assumptions C04_st_roundtrip_hc_stream_unconditional.
